@@ -1,6 +1,6 @@
-(* C02 — Servers answer every request once, with its id, in arrival order. Theorems only; proofs in Proofs/PktMgrP.v *)
+(* C02 — Servers answer every request once, with its id, in arrival order. Theorems only; proofs in Proofs/PktMgrP.v, Proofs/PktMgrLiveP.v *)
 From Coq Require Import List Bool Arith.
-From Sftp Require Import Sched.PktMgr Proofs.PktMgrP.
+From Sftp Require Import Sched.PktMgr Sched.PktTrace Proofs.PktMgrP Proofs.PktMgrLiveP Proofs.PktTraceP.
 Import ListNotations.
 
 (* for every request program (any mix of read/write, close and command requests pipelined without waiting) and every
@@ -22,9 +22,47 @@ Theorem C02_working_counts : forall tr s, run init tr = Some s -> working s = le
 Proof. intros tr s H. apply (close_barrier tr s H). Qed.
 Print Assumptions C02_working_counts.
 
-(* PARTIAL: "every request is eventually answered" (no wedge / completeness at quiescence) is not yet a theorem; it is
-   decided per run by the oracle of family c02 (one response per request under chosen completion orders). The shutdown
-   race that loses trailing responses when the input ends right after the requests (finding F10) is a known finding. *)
+(* nothing is lost: for every pipeline and every schedule, once no goroutine has work left, the responses written are
+   exactly those of ALL the requests that arrived, in arrival order, each once *)
+Theorem C02_quiescent_complete : forall tr s, run init tr = Some s -> quiescent s = true ->
+  emitted s = seq 1 (arrived s).
+Proof. exact quiescent_complete. Qed.
+Print Assumptions C02_quiescent_complete.
+
+(* no wedge: a reachable state with work left can always take a step of the server's own goroutines (also across the
+   CLOSE barrier) ... *)
+Theorem C02_progress : forall tr s, run init tr = Some s -> quiescent s = false ->
+  exists l s', internal l = true /\ step s l = Some s'.
+Proof. exact progress. Qed.
+Print Assumptions C02_progress.
+
+(* ... such steps cannot go on forever (each one strictly decreases `measure`) ... *)
+Theorem C02_internal_runs_bounded : forall tr' s s', forallb internal tr' = true -> run s tr' = Some s' ->
+  length tr' + measure s' <= measure s.
+Proof. exact internal_runs_bounded. Qed.
+Print Assumptions C02_internal_runs_bounded.
+
+(* ... so from every reachable state the server can finish, and then it has answered every request exactly once *)
+Theorem C02_drains : forall tr s, run init tr = Some s ->
+  exists tr' s', forallb internal tr' = true /\ run s tr' = Some s' /\ quiescent s' = true /\
+                 arrived s' = arrived s /\ emitted s' = seq 1 (arrived s).
+Proof. exact drains. Qed.
+Print Assumptions C02_drains.
+
+(* ===== the tie to packet-manager.go: trace acceptance (families pmt) =====
+   The instrumented packet manager reports its events (A arrive, D dispatch, F finished, Q/R controller receives,
+   E emission); `accept_trace` replays them on the LTS. For every trace it accepts: the E events are 1, 2, 3, ... (every
+   response once, in arrival order), the order invariant holds in the state reached, and the model's emissions are the
+   trace's plus those the last controller step still owes. Every run compares accepted/emitted with the recorded trace. *)
+Theorem C02_accepted_trace_in_order : forall tr s owed,
+  accept_raw tr = inl (s, owed) ->
+  inv1 s /\ emitted s = es_of tr ++ owed /\ es_of tr = seq 1 (length (es_of tr)).
+Proof. exact accepted_raw_in_order. Qed.
+Print Assumptions C02_accepted_trace_in_order.
+
+(* MODELLED, NOT PROVED ABOUT THE CODE: that the LTS is the packet manager (tied by the c02 family's oracle and by code
+   reading, see DESIGN 0.2); the response id equals the request id (oracle of c02); behaviour when the input ends while
+   work is in flight: the real Serve stops the controller early (finding F10, known), which the LTS does not model. *)
 Example C02_nonvacuous :
   exists s, run init [Arrive KRW; Arrive KCmd; Arrive KRW; Dispatch; Dispatch; Dispatch; FinishRW 3; FinishCmd; CtlReq; CtlResp;
                       CtlResp; CtlReq; CtlReq; FinishRW 1; CtlResp] = Some s /\ emitted s = [1; 2; 3].
